@@ -16,7 +16,6 @@ from pennylane import numpy as pnp
 warnings.filterwarnings("ignore")
 import jax  # noqa: E402
 import jax.numpy as jnp  # noqa: E402
-import torch  # noqa: E402
 
 jax.config.update("jax_enable_x64", True)
 
@@ -68,6 +67,7 @@ def conv(v, itf, train=False):
         return pnp.array(a, requires_grad=train)
     if itf == "jax":
         return jnp.asarray(a)
+    import torch            # imported on first use: the jax worker never needs it
     return torch.tensor(a, dtype=torch.float64, requires_grad=train)
 
 
@@ -208,6 +208,7 @@ def qnode_jacobian(qn, vals, itf, res):
     def fl(*a):
         r = qn(*a)
         return r if single else tuple(flat_leaves(r))
+    import torch
     jac = torch.autograd.functional.jacobian(fl, vals[0] if len(vals) == 1 else tuple(vals))
     return jac if single else regroup(res, iter(jac))
 
